@@ -120,6 +120,7 @@ def run(ctx):
         _replay_cfg(ctx, "MC_DataImpl_C18EmitL2", limit=6000, record=1000)
         _replay_cfg(ctx, "MC_DataImpl_C18EmitL3", limit=3000, record=500)
         _replay_cfg(ctx, "MC_DataImpl_C18EmitMix", limit=4000, record=500)
+        _replay_cfg(ctx, "MC_DataImpl_C18EmitSingle", limit=3000, record=300)      # every input dimension aligned with the verified ones
         _random_sequences(ctx, "C18Mix", 32, 10, 8)
     else:
         res = tlc.run("MC_DataImpl", "MC_DataImpl_C18QuickFixed", tag=ctx.pid + "_model", timeout_s=900, require_emit=False)
@@ -132,6 +133,7 @@ def run(ctx):
         _replay_cfg(ctx, "MC_DataImpl_C18EmitL2", fmt="netcdf")
         _replay_cfg(ctx, "MC_DataImpl_C18EmitL3", record=4000)
         _replay_cfg(ctx, "MC_DataImpl_C18EmitMix", record=4000)
+        _replay_cfg(ctx, "MC_DataImpl_C18EmitSingle", record=2000)
         _random_sequences(ctx, "C18Mix", 32, 60, 12)
         _random_sequences(ctx, "C18Quick", 16, 60, 12)
         ctx.exhaustive = True
